@@ -33,7 +33,7 @@ VERIF = bootstrap.VERIF
 # --------------------------------------------------------------------------
 # A. the OpenMP race model
 # --------------------------------------------------------------------------
-OMP_INVS = ["SiteModelled", "LastprivateIndependentOfSchedule", "ImagesVisited", "NoDataRace", "NoConflictingIterations", "ReadsFromSequential", "NoUndefinedPrivateRead",
+OMP_INVS = ["SiteModelled", "ReductionOnlyAccumulated", "LastprivateIndependentOfSchedule", "ImagesVisited", "NoDataRace", "NoConflictingIterations", "ReadsFromSequential", "NoUndefinedPrivateRead",
             "ResultIndependentOfSchedule", "NoOutOfBounds", "RegionModelled", "TypeOK"]
 
 OMP_CFG = """SPECIFICATION Spec
@@ -130,16 +130,28 @@ def check_omp(ctx):
             det = omp_violation_detail(ms, name, trace)
             # an interleaving counterexample for the same site (operational invariants only)
             si = det.get("site")
-            if si and name in ("NoConflictingIterations",):
+            if si and name in ("NoConflictingIterations", "SiteModelled"):
                 one = [m for m in ms if m["name"] == si]
                 cfg2 = OMP_CFG % (2, 4, "\n".join("INVARIANT " + i for i in
                                                  ["NoDataRace", "ReadsFromSequential", "NoUndefinedPrivateRead",
-                                                  "ResultIndependentOfSchedule", "LastprivateIndependentOfSchedule"]))
+                                                  "ResultIndependentOfSchedule", "LastprivateIndependentOfSchedule",
+                                                  "ReductionOnlyAccumulated", "NoConflictingIterations"]))
                 try:
                     r2 = ctx.tlc("MC_KernelsOMP", cfg_text=cfg2, extra_files={"MC_KernelsOMP.tla": mc_sites(one)},
                                  requirement=False, workers=4, timeout=120)
                     if r2.violated:
-                        det["interleaving"] = omp_violation_detail(one, r2.violated, r2.trace)
+                        tr2 = r2.trace
+                        nm2 = r2.violated
+                        if not tr2:
+                            iv2 = initial_state_violations(r2.stdout)
+                            if iv2:
+                                nm2, st2 = iv2[0]
+                                tr2 = [("Init", st2)]
+                        det["interleaving"] = omp_violation_detail(one, nm2, tr2)
+                        if name == "SiteModelled":
+                            # what the model can still say about the partly modelled site
+                            ctx.violation("omp:%s:%s" % (nm2, si), "OpenMP region %s (%s:%s) violates %s"
+                                          % (si, det.get("file"), det.get("line"), nm2), det["interleaving"])
                 except tlcmod.MachineryError:
                     pass
             if name == "SiteModelled":
@@ -155,7 +167,8 @@ def check_omp(ctx):
 # --------------------------------------------------------------------------
 RUNS_INVS = ["ImplMatchesReference", "ImplThreadsRepsBitwise", "ImplBuildsAgree", "ImplGuardsIntact",
              "ImplConstInputsUnchanged", "ImplUseOpenmpFlagIrrelevant", "ImplNoException", "ImplNoSanitizerReport", "ImplCoversMatrix",
-             "ImplKernelKnown", "ImplGlue", "ImplAllKernelsCovered", "ImplIndexMapCoverage"]
+             "ImplKernelKnown", "ImplGlue", "ImplAllKernelsCovered", "ImplIndexMapCoverage",
+             "ImplFlagCellsCovered", "ImplDivergentCovered"]
 
 RUNS_CFG = """SPECIFICATION Spec
 CONSTANTS
@@ -166,6 +179,8 @@ CONSTANTS
  WithAsan = %s
  Groups <- MCGroups
  Glue <- MCGlue
+ FlagArgs <- MCFlagArgs
+ Divergent <- MCDivergent
 CHECK_DEADLOCK FALSE
 %s
 """
@@ -199,11 +214,30 @@ def relerr(c, r):
     return float(d.max() / (sc if sc > 0 else 1.0))
 
 
-def mc_runs(kernels, threads, reps, groups, glue):
+def mc_runs(kernels, threads, reps, groups, glue, flagargs=(), divergent=()):
     return ("---- MODULE MC_KernelRuns ----\nEXTENDS KernelRuns\n"
-            "MCKernels == %s\nMCThreads == %s\nMCReps == %s\nMCGroups == {%s}\nMCGlue == {%s}\n====\n"
+            "MCKernels == %s\nMCThreads == %s\nMCReps == %s\nMCGroups == {%s}\nMCGlue == {%s}\n"
+            "MCFlagArgs == {%s}\nMCDivergent == {%s}\n====\n"
             % (to_tla(set(kernels)), to_tla(set(threads)), to_tla(set(reps)),
-               ",\n".join(to_tla(g) for g in groups), ",\n".join(to_tla(g) for g in glue)))
+               ",\n".join(to_tla(g) for g in groups), ",\n".join(to_tla(g) for g in glue),
+               ", ".join('<<"%s", "%s">>' % fa for fa in flagargs),
+               ", ".join('[site |-> "%s", kernels |-> %s]' % (d["site"], to_tla(set(d["kernels"]))) for d in divergent)))
+
+
+FLAG_CTYPES = ("long", "int", "bool", "_Bool", "const char *", "unsigned long", "long long")
+
+
+def flag_positions(gt):
+    """{kernel: [(position, name)]} of the integer / bool / char* scalar arguments, from the glue signatures."""
+    out = {}
+    for kname in K.KERNELS:
+        g = gt.get(kname)
+        if g is None:
+            continue
+        out[kname] = [(pos, nm) for pos, (nm, t) in enumerate(zip(g["params"], g["ptypes"]))
+                      if "ndarray" not in t and t.replace("const ", "", 1).strip() in
+                      [x.replace("const ", "", 1).strip() for x in FLAG_CTYPES] or t in FLAG_CTYPES]
+    return out
 
 
 def plan(ctx, threads, reps, with_serial, with_asan):
@@ -383,6 +417,18 @@ def check_kernels(ctx, prog):
 
     # ---- glue table against the recorded dtypes / ranks (static, from the AST) ----
     gt = c13_omp.glue_table(prog)
+    fpos = flag_positions(gt)
+    flagargs = sorted((k, nm) for k, lst in fpos.items() for _p, nm in lst)
+    ctx.extra["flag_arguments"] = ["%s.%s" % fa for fa in flagargs]
+    # code compiled only with / only without _OPENMP, and the kernels that reach it
+    dsites = c13_omp.build_divergent_sites(prog)
+    reach = c13_omp.kernels_reaching(prog, set(d["func"] for d in dsites))
+    divergent = []
+    for d in dsites:
+        ks = sorted(k for k, fs in reach.items() if d["func"] in fs)
+        divergent.append(dict(site="%s:%s:%s:%s" % (d["file"], d["line"], d["branch"], d["func"]), kernels=ks,
+                              code=d["code"][:4]))
+    ctx.extra["build_divergent_sites"] = divergent
     glue_events = []
     for kname in K.KERNELS:
         g = gt.get(kname)
@@ -516,19 +562,29 @@ def check_kernels(ctx, prog):
     gl = []
     for g in groups.values():
         facts = K.index_map_facts(cases[g["case"]])
+        cargs = cases[g["case"]]["args"]
+        flags = c13set((nm, str(K.scalar_sig(cargs[pos]))) for pos, nm in fpos.get(g["kernel"], []) if pos < len(cargs))
         gl.append(dict(kernel=g["kernel"], case=g["case"], variant=g["variant"], indexmaps=facts["indexmaps"],
                        noncontig=facts["noncontig"], p2sprefix=facts["p2sprefix"], gllimit=facts["gllimit"],
-                       runs=set_of(g["runs"])))
+                       flags=flags, runs=set_of(g["runs"])))
     ctx.sample(dict(kernel=gl[0]["kernel"], case=gl[0]["case"], runs=len(gl[0]["runs"]))) if gl else None
 
     # ---- code -> spec: TLC judges every group ----
     cfg = RUNS_CFG % ("TRUE", "TRUE" if with_asan else "FALSE", "\n".join("INVARIANT " + i for i in RUNS_INVS))
-    mc = mc_runs(K.KERNELS, threads, reps, gl, glue_events)
+    mc = mc_runs(K.KERNELS, threads, reps, gl, glue_events, flagargs, divergent)
     res = ctx.tlc("MC_KernelRuns", cfg_text=cfg, extra_files={"MC_KernelRuns.tla": mc}, requirement=False,
                   extra_args=("-continue",), workers=4, timeout=900)
     ctx.extra["groups_checked"] = len(gl)
     seen = set()
     for name, st in initial_state_violations(res.stdout):
+        if name in ("ImplFlagCellsCovered", "ImplDivergentCovered"):
+            have = {}
+            for g in gl:
+                for (a, v) in g["flags"]:
+                    have.setdefault((g["kernel"], a), set()).add(v)
+            missing = ["%s.%s has only %s" % (k, a, sorted(have.get((k, a), []))) for (k, a) in flagargs
+                       if len(have.get((k, a), [])) < 2]
+            raise tlcmod.MachineryError("C13 case generator: %s of KernelRuns.tla not met: %s" % (name, missing))
         if name in ("ImplAllKernelsCovered", "ImplIndexMapCoverage"):
             # the inputs do not span what the property quantifies over: the run proves nothing
             raise tlcmod.MachineryError("C13 case generator: coverage requirement %s of KernelRuns.tla not met "
@@ -587,12 +643,19 @@ class _RecSet(list):
     pass
 
 
+def c13set(pairs):
+    """set of <<name, value>> string pairs for to_tla"""
+    return _RecSet(sorted(set((str(a), str(b)) for a, b in pairs)))
+
+
 _orig_to_tla = to_tla
 
 
 def _to_tla(v):
     if isinstance(v, _RecSet):
         return "{" + ", ".join(_to_tla(x) for x in v) + "}"
+    if isinstance(v, tuple):
+        return "<<" + ", ".join(_to_tla(x) for x in v) + ">>"
     if isinstance(v, dict) and v and all(isinstance(k, str) for k in v):
         return "[" + ", ".join("%s |-> %s" % (k, _to_tla(x)) for k, x in v.items()) + "]"
     if isinstance(v, (list, tuple)) and not isinstance(v, _RecSet):
